@@ -5,6 +5,7 @@ package main
 import (
 	"go/token"
 	"go/types"
+	"strings"
 
 	"golang.org/x/tools/go/ssa"
 )
@@ -155,6 +156,12 @@ func (e *Engine) depGlobalInit(st *State, g *ssa.Global, id int) bool {
 		e.assign(st, id, StructV{f: []Value{e.cuint(1, 16, false), e.cuint(3, 8, false)}})
 		return true
 	case stunPath + ".Fingerprint", stunPath + ".bin":
+		return true
+	case "net/netip.z4", "net/netip.z6noz":
+		// unique.Handle[addrDetail]{value}: the identities the netip stubs use for the two address families
+		e.assign(st, id, StructV{f: []Value{e.netipSentinel(st, strings.TrimPrefix(g.String(), "net/netip."))}})
+		return true
+	case "net/netip.z0":
 		return true
 	case "encoding/base64.StdEncoding", "encoding/base64.URLEncoding", "encoding/base64.RawStdEncoding":
 		return true // only used as receiver of stubbed methods
